@@ -143,10 +143,10 @@ PROPS = {
         "explanation": "binding theorems on the model + exhaustive (signature x call shape) enumeration with recording helpers judged against a declarative binding written in Go",
     },
     "C17": {
-        "level": "proof", "cone": ["model/Eval.v", "proofs/EvalProofs.v", "props/C17.v"],
+        "level": "proof", "cone": ["model/Eval.v", "model/Ctx.v", "proofs/EvalProofs.v", "proofs/CtxProofs.v", "proofs/FrameProofs.v", "proofs/DataProofs.v", "props/C17.v"],
         "trusted_base": COMMON_TB + ["partial_call, block_with, block_in_child and the contentFor/contentOf cases of go_apply in model/Eval.v transcribe partial_helper.go, helper_context.go and helpers/content; text/template.JSEscapeString is re-implemented with unicode.IsPrint approximated (only U+2028/2029 non-printable): partial bodies are ASCII in the JS cases", "filepath.Ext re-implemented (ext_of)"],
         "assumptions": [],
-        "explanation": "theorems relating block_with / partial_call to inline evaluation on the model + generated partial / layout / contentFor / block-helper uses compared with a second, inline run of the real engine",
+        "explanation": "theorems relating block_with / partial_call to inline evaluation on the model, and that the data binds every key (nil values included) in the fresh child scope + generated partial / layout / contentFor / block-helper uses compared with a second, inline run of the real engine",
     },
     "C15": {
         "level": "proof", "cone": ["model/Lexer.v", "model/Parser.v", "model/Eval.v", "proofs/LexerProofs.v", "proofs/LexerEquiv.v", "proofs/EvalProofs.v", "proofs/StmtProofs.v", "props/C15.v"],
